@@ -55,6 +55,9 @@ func TestProp(t *testing.T) {
 	for k, v := range authFloors {
 		floors[k] = v
 	}
+	for k, v := range shapeFloors {
+		floors[k] = v
+	}
 	for k, v := range floors {
 		v *= env.Pick(1, 8)
 		if replaying {
@@ -68,16 +71,22 @@ func TestProp(t *testing.T) {
 }
 
 func runProxyWorkload(rep *vh.Report, env vh.Env) {
+	inRange := func(only, lo, per int) bool { return only < 0 || (only >= lo && only < lo+per) }
 	// proxy stacks through the YAML construction path
 	{
-		rn := &runner{rep: rep, stream: "c18-proxy"}
+		rn := &runner{rep: repView{Report: rep}, stream: "c18-proxy"}
+		rs := &runner{rep: repView{Report: rep, prefix: "shape:"}, stream: "c18-proxy-shape", shape: true}
 		only, skip := env.Only(rn.stream)
+		onlyS, skipS := env.Only(rs.stream)
 		nStacks := env.Pick(8, 40)
 		per := env.Pick(280, 1150)
+		perS := env.Pick(400, 900)
 		nSlow := env.Pick(5, 10)
-		for si := 0; si < nStacks && !skip; si++ {
-			lo := si * per
-			if only >= 0 && (only < lo || only >= lo+per) {
+		for si := 0; si < nStacks; si++ {
+			lo, loS := si*per, si*perS
+			runMain := !skip && inRange(only, lo, per)
+			runShape := !skipS && inRange(onlyS, loS, perS)
+			if !runMain && !runShape {
 				continue
 			}
 			st := genYAMLStack(vh.CaseRNG(env.Seed, "c18-proxy-config", si), si)
@@ -85,19 +94,29 @@ func runProxyWorkload(rep *vh.Report, env vh.Env) {
 				rep.Inconclusive("proxy stack did not start: " + err.Error())
 				continue
 			}
-			rn.runStack(env, st, lo, per, nSlow, only)
+			if runMain {
+				rn.runStack(env, st, lo, per, nSlow, only)
+			}
+			if runShape {
+				rs.runShapes(env, st, loS, perS, onlyS)
+			}
 			st.ps.Close()
 		}
 	}
 	// direct single-upstream assemblies (no timeout / flush chain; no host router)
 	{
-		rn := &runner{rep: rep, stream: "c18-direct"}
+		rn := &runner{rep: repView{Report: rep}, stream: "c18-direct"}
+		rs := &runner{rep: repView{Report: rep, prefix: "shape:"}, stream: "c18-direct-shape", shape: true}
 		only, skip := env.Only(rn.stream)
+		onlyS, skipS := env.Only(rs.stream)
 		nStacks := env.Pick(4, 8)
 		per := env.Pick(130, 700)
-		for di := 0; di < nStacks && !skip; di++ {
-			lo := di * per
-			if only >= 0 && (only < lo || only >= lo+per) {
+		perS := env.Pick(300, 1300)
+		for di := 0; di < nStacks; di++ {
+			lo, loS := di*per, di*perS
+			runMain := !skip && inRange(only, lo, per)
+			runShape := !skipS && inRange(onlyS, loS, perS)
+			if !runMain && !runShape {
 				continue
 			}
 			st := genDirectStack(vh.CaseRNG(env.Seed, "c18-direct-config", di), di)
@@ -105,7 +124,12 @@ func runProxyWorkload(rep *vh.Report, env vh.Env) {
 				rep.Inconclusive("direct proxy did not start: " + err.Error())
 				continue
 			}
-			rn.runStack(env, st, lo, per, 0, only)
+			if runMain {
+				rn.runStack(env, st, lo, per, 0, only)
+			}
+			if runShape {
+				rs.runShapes(env, st, loS, perS, onlyS)
+			}
 			st.ps.Close()
 		}
 	}
